@@ -53,6 +53,8 @@ type Case struct {
 	Mal   bool   `json:"malformed,omitempty"`
 	// compatible brands of the ftyp box (nil = the major brand and "isom")
 	Compat []string `json:"compatible_brands,omitempty"`
+	// size of the caller's bufio.Reader (0 = 8192)
+	Buf int `json:"bufio_size,omitempty"`
 }
 
 // placed is a node after layout.
@@ -259,7 +261,11 @@ func eval(c Case) (f *pbt.Fail) {
 	var calls []call
 	for k := 1; k <= len(tops); k++ {
 		src := bytes.NewReader(file)
-		br := bufio.NewReaderSize(src, 8192)
+		bsz := c.Buf
+		if bsz == 0 {
+			bsz = 8192
+		}
+		br := bufio.NewReaderSize(src, bsz)
 		pos := func() int { return len(file) - src.Len() - br.Buffered() }
 		calls = calls[:0]
 		r := isobmff.NewReader(br)
@@ -542,6 +548,12 @@ func genHeifItem(rt *rapid.T) Case {
 }
 
 func genWell(rt *rapid.T) Case {
+	c := genWell0(rt)
+	c.Buf = rapid.SampledFrom([]int{0, 0, 4096, 4096, 16384}).Draw(rt, "bufio")
+	return c
+}
+
+func genWell0(rt *rapid.T) Case {
 	if gen.Chance(rt, "heif-item?", 0.15) {
 		return genHeifItem(rt)
 	}
@@ -657,7 +669,40 @@ func TestProp(t *testing.T) {
 		"oracle (computed by the writer): error nil and stream position == start of top-level box k+1 after every step; callbacks exactly the CMT/xpacket/PRVW boxes in file order; the bytes each callback's reader yields are exactly the file's bytes of that payload (CMT: from the first IFD to the end of the box); header fields (byte order, first IFD, length, directory type CMT1 root / CMT2 Exif / CMT3 maker note / CMT4 GPS; PRVW size and dimensions); PreviewCR3 on camera-layout files returns the PRVW payload. " +
 		"malformed variant: one non-top-level box, and often a chain of its descendants, declare real size + {1..2^31} or a size < 8: whatever a callback reads must be file bytes inside every enclosing box, and a nil return must leave the reader at the next top-level box. HEIF item trees (15 %): meta[hdlr, pitm, iinf with an Exif item, iloc pointing at it, opaque*] + mdat holding the item 0..9040 bytes into its payload (position and nil error after every step; the Exif callback confined to the item); a quarter of the files end in a box of 8..15 bytes. non-trivial = depth >= 3 with >= 1 callback box, a HEIF item tree, or a malformed child; distinct by file bytes")
 	rec.Assume("a HEIF Exif item holds at least the 10-byte item prefix, a TIFF header and a one-entry directory (36 bytes): for shorter items the reader reports an error, which is not a containment question")
+	rec.Rule("exhaustive shift: a fixed CR3 tree (moov[free(L), uuid-canon[CNCV, CTBO, CMT1..CMT4]], uuid-xpacket, uuid-preview[PRVW], mdat) and a fixed HEIF item tree (meta[free(L), hdlr, pitm, iinf, iloc], mdat with the item 20 bytes in) for every L = 0..4300 (thorough 12500): every box header, full-box header, table and callback payload crosses every 4 KiB reader-buffer boundary at every phase")
 	pbt.RegressDir(t, rec)
+	{
+		idx := 0
+		for L := 0; L <= rec.Env.Pick(4300, 12500); L++ {
+			for _, heif := range []bool{false, true} {
+				idx++
+				if idx%rec.Env.Shards != rec.Env.Shard {
+					continue
+				}
+				var c Case
+				if heif {
+					c = Case{Brand: "heic", Top: []Node{
+						{Type: "meta", Full: true, Kids: []Node{{Type: "free", Len: L}, {Type: "hdlr", Role: "hdlr", Full: true}, {Type: "pitm", Role: "pitm", Full: true}, {Type: "iinf", Role: "iinf", Full: true}, {Type: "iloc", Role: "iloc", Full: true}}},
+						{Type: "mdat", Role: "mdatitem", ItemAt: 20, ItemLen: 200, Len: 64, MM: L%2 == 1}}}
+				} else {
+					canon := Node{Type: "uuid", Role: "canon", Kids: []Node{{Type: "CNCV", Role: "cncv"}, {Type: "CTBO", Role: "ctbo"},
+						{Type: "CMT1", Role: "cmt1", Len: 120, MM: L%2 == 1}, {Type: "CMT2", Role: "cmt2", Len: 300, FirstIFD: 16}, {Type: "CMT3", Role: "cmt3", Len: 90}, {Type: "CMT4", Role: "cmt4", Len: 60, MM: true}}}
+					c = Case{Brand: "crx ", Top: []Node{
+						{Type: "moov", Kids: []Node{{Type: "free", Len: L}, canon, {Type: "trak", Len: 40}}},
+						{Type: "uuid", Role: "xpacket", Len: 333},
+						{Type: "uuid", Role: "preview", Kids: []Node{{Type: "PRVW", Role: "prvw", Len: 700}}},
+						{Type: "mdat", Len: 64}}}
+				}
+				c.Buf = 4096
+				rec.Case(true, ev.HashS("shift", fmt.Sprint(L, heif)), "buffer-boundary-sweep")
+				if f := eval(c); f != nil {
+					if pbt.Report(t, rec, chk.Name, c, f) {
+						return
+					}
+				}
+			}
+		}
+	}
 	if !pbt.Run(t, rec, chk, rec.Env.Pick(3000, 120000), 1) {
 		return
 	}
